@@ -15,6 +15,7 @@ def run(F, rep):
     rep.engines.update(["E2-DT", "affine", "E1"])
     dt_msp.score_closure_tables(F, rep, "C08.1")
     dt_msp.piece_closure_table(F, rep, "C08.2")
+    dt_msp.capacity_guard(F, rep, "C08.2")
     dt_msp.slice_bounds_tables(F, rep, "C08.3")
     dt_msp.from_slice_table(F, rep, "C08.5")
     dt_msp.minpos_order_tables(F, rep, "C08.6")
